@@ -299,6 +299,21 @@ func c07Docs() *rapid.Generator[val.Value] {
 	return rapid.OneOf(
 		gen.Doc(gen.DocOpts{NestedArrays: 0.2}),
 		gen.Doc(gen.DocOpts{NestedArrays: 0.2, NoEmpty: true, NullFree: true}),
+		// documents on which the candidate mutators succeed: unsorted homogeneous
+		// arrays (an in-place $sort/$reverse/$shuffle is only visible on those)
+		rapid.Custom(func(t *rapid.T) val.Value {
+			pool := []string{`[3,1,2]`, `[2,1]`, `["b","a","c"]`, `[{"a":2,"k":"y"},{"a":1,"k":"x"}]`, `{"a":[3,1,2],"b":["z","y"]}`, `[[2,1],[3]]`, `[5,4,3,2,1,0]`, `["b","a"]`, `{"b":{"a":[9,8]}}`, `7`, `"s"`}
+			m := map[string]val.Value{}
+			for _, n := range c07Names {
+				if rapid.IntRange(0, 3).Draw(t, "has") != 0 {
+					m[n] = val.MustJSON(rapid.SampledFrom(pool).Draw(t, "v"))
+				}
+			}
+			if rapid.IntRange(0, 4).Draw(t, "top") == 0 {
+				return val.MustJSON(rapid.SampledFrom(pool[:8]).Draw(t, "topv"))
+			}
+			return val.O(m)
+		}),
 	)
 }
 
